@@ -157,6 +157,18 @@ def family_case(draw, tier):
             cm = transform_cmds(other, achain(scale(size * 0.7, size * 0.4), translate(vb[0] + vb[2] / 2, vb[1] + vb[3] / 2)))
             nodes.append({"t": "p", "d": cm, "fill": {"k": "solid", "c": "#123456"}, "op": 1.0, "tag": "other"})
         sources.append({"model": {"vb": vb, "nodes": nodes}, "cps": [0xE000 + gi]})
+    if not cfg["color_format"].startswith("picosvg") and not chained and draw(st.integers(0, 4)) == 0:
+        # a tiny look-alike seen first: the family's shape, uniformly shrunk, far from the font origin (top right corner), so
+        # that enlarging *it* into a member needs a translation beyond 16.16 - it can donate to nobody, and the members
+        # still have to share among themselves (the statement's exception is per placing transform, not per key)
+        from ..ref_svg import em_transform
+
+        F = em_transform(tuple(vb), cfg["ascender"], cfg["descender"], cfg["width"])[0]
+        px, py = vb[0] + 0.95 * vb[2], vb[1] + 0.04 * vb[3]
+        fx, fy = F[0] * px + F[2] * py + F[4], F[1] * px + F[3] * py + F[5]
+        kf = draw(st.sampled_from([1.15, 1.3, 1.6])) * 32768.0 / max(abs(fx), abs(fy), 1.0) + 1.0
+        mt = achain(scale(size / kf), translate(px, py))
+        sources[0]["model"]["nodes"].insert(0, {"t": "p", "d": transform_cmds(unit, mt), "fill": {"k": "solid", "c": "#202020"}, "op": 1.0, "tag": "other:tiny"})
     if nglyph >= 2 and draw(st.sampled_from([False, False, True])):
         # glyphs with viewBoxes of their own: same height (hence the same scale), another origin and another width. The artwork of a
         # glyph moves with its origin, so copies stay congruent in source units and in font units alike
@@ -273,6 +285,39 @@ def _classify_miss(case, cfg):
     return "keys-equal"
 
 
+def _cannot_donate(case, cfg, node):
+    """True when the affine that lays `node` (a look-alike in glyph 0) over *each* family member exists and overflows 16.16 by
+    a clear margin (> 34000), computed by picosvg on font-unit paths prepared the way nanoemoji prepares them."""
+    from picosvg.svg import SVG
+    from picosvg.svg_reuse import affine_between
+    from picosvg.svg_transform import Affine2D
+    from picosvg.svg_types import SVGPath
+
+    from ..gen_svg import render
+    from ..ref_svg import em_transform
+
+    if cfg["color_format"].startswith("picosvg"):
+        return False
+    donor, members = None, []
+    for s in case["sources"]:
+        svg = SVG.fromstring(render(s["model"]))
+        vb = svg.view_box()
+        m, _ = em_transform((vb.x, vb.y, vb.w, vb.h), cfg["ascender"], cfg["descender"], cfg["width"])
+        for shp, p in zip(svg.shapes(), model_paths(s["model"])):
+            fp = SVGPath(d=shp.as_path().d).apply_transform(Affine2D(*m))
+            if p is node:
+                donor = fp
+            elif p["tag"].startswith("fam:"):
+                members.append(fp)
+    if donor is None or not members:
+        return False
+    for mem in members:
+        a = affine_between(SVGPath(d=donor.d), SVGPath(d=mem.d), cfg["reuse_tolerance"])
+        if a is None or max(abs(x) for x in a) <= 34000.0:
+            return False
+    return True
+
+
 def judge(case):
     v = Verdict()
     cfg = case["cfg"]
@@ -311,8 +356,11 @@ def judge(case):
             for p in model_paths(s_["model"]):
                 if p["tag"].startswith("fam:"):
                     seen_family = True
-                elif not seen_family and _norm(_SP(d=_d(p["d"])), 0.01).d == fkey:
+                elif not seen_family and (p["tag"] == "other:tiny" or _norm(_SP(d=_d(p["d"])), 0.01).d == fkey):
                     # drawn before the family's first member it is the first candidate donor; after it, it must not matter
+                    if _cannot_donate(case, cfg, p):
+                        v.cls("lookalike-first-unplaceable")  # ... unless placing it over any member is beyond 16.16
+                        continue
                     v.discard = "a shape outside the family, drawn before it, is an affine image of it"
                     return v
             if seen_family:
